@@ -346,6 +346,11 @@ def main(argv=None) -> int:
             print("VIOLATION property=%s replay=%s" % (prop, path))
         if args.keep_going:
             print("classes: " + ", ".join("%s x%d" % (c, len(i)) for c, i in by_class.items()))
+            feat = collections.Counter()
+            for idx, v, w in unknown:
+                feat[(v["class"], json.dumps(v.get("features", {}), sort_keys=True))] += 1
+            for (c, f), k in feat.most_common(40):
+                print("  %6d  %s %s" % (k, c, f))
 
     wall = time.monotonic() - t0
     write_evidence(mod, prop, tier, base_seed, ordered, wall, len(unknown), known_matched, known_lines, det, timed_out, n_runs)
